@@ -274,7 +274,10 @@ var templates = []tmpl{
 	// tokens of a procedure body that is never closed, or is very long, pile
 	// up on the operand stack while it is collected
 	{"{ " + strings.Repeat("0 ", 70000), []string{"stackoverflow", "limitcheck"}},
-	{"{ " + strings.Repeat("{ 1 ", 40000), []string{"stackoverflow", "limitcheck", "execstackoverflow"}},
+	// (40000 unclosed bodies of one token each: nothing grows but the nesting
+	// of the literal itself, which is data of the size of the input - an
+	// interpreter that collects bodies off the operand stack may accept it)
+	{"{ " + strings.Repeat("{ 1 ", 40000), []string{"stackoverflow", "limitcheck", "execstackoverflow", ""}},
 	{"{ " + strings.Repeat("(s) /n 2.5 ", 25000) + "} pop", []string{"stackoverflow", "limitcheck"}},
 	{"1 2 { " + strings.Repeat("dup ", 60000) + "} exec", []string{"stackoverflow"}},
 }
